@@ -101,13 +101,34 @@ func (m *Machine) trap(name string, fn *ssa.Function, args []value) value {
 		}
 	}
 	res := fn.Signature.Results()
+	// An unexpected trap fails like an unavailable OS would: a function whose
+	// last result is an error returns a non-nil error, so that the caller takes
+	// its error path instead of using zero results (e.g. a nil *user.Group).
+	// Harnesses that use traps as their oracle (ExpectTraps) keep zero results
+	// so that every later OS call of the operation is still reached.
+	isErr := func(t types.Type) bool {
+		n, ok := t.(*types.Named)
+		return ok && n.Obj().Pkg() == nil && n.Obj().Name() == "error"
+	}
 	switch res.Len() {
 	case 0:
 		return nil
 	case 1:
+		if !m.path.trapsExpected && isErr(res.At(0).Type()) {
+			return m.mkError("verif: real-OS call trapped: " + name)
+		}
+		if !m.path.trapsExpected && isString(res.At(0).Type()) {
+			// a recognisable non-empty answer, so that a value obtained from the
+			// real OS is visible where it flows (e.g. into a host-OS argument)
+			return "/trapped:" + name
+		}
 		return zero(res.At(0).Type())
 	}
-	return zero(res)
+	z := zero(res).(tuple)
+	if !m.path.trapsExpected && isErr(res.At(res.Len()-1).Type()) {
+		z[res.Len()-1] = m.mkError("verif: real-OS call trapped: " + name)
+	}
+	return z
 }
 
 var externals map[string]externalFn
@@ -374,6 +395,28 @@ func init() {
 				return true
 			}
 			return false
+		},
+
+		// ---- math/rand (environment stub: a fixed stream) ----
+		"math/rand.Int63":   func(m *Machine, fr *frame, a []value) value { return int64(4) },
+		"math/rand.Int31":   func(m *Machine, fr *frame, a []value) value { return int64(4) },
+		"math/rand.Int":     func(m *Machine, fr *frame, a []value) value { return int64(4) },
+		"math/rand.Uint32":  func(m *Machine, fr *frame, a []value) value { return int64(4) },
+		"math/rand.Uint64":  func(m *Machine, fr *frame, a []value) value { return int64(4) },
+		"math/rand.Float64": func(m *Machine, fr *frame, a []value) value { return float64(0.25) },
+		"math/rand.Intn": func(m *Machine, fr *frame, a []value) value {
+			n := m.concretizeInt(a[0], intInfo{64, true})
+			if n <= 0 {
+				m.rtPanicPlain("invalid argument to Intn")
+			}
+			return int64(4 % n)
+		},
+		"math/rand.Int63n": func(m *Machine, fr *frame, a []value) value {
+			n := m.concretizeInt(a[0], intInfo{64, true})
+			if n <= 0 {
+				m.rtPanicPlain("invalid argument to Int63n")
+			}
+			return int64(4 % n)
 		},
 
 		// ---- runtime ----
